@@ -140,6 +140,7 @@ fn run_history_here(
     let mut runner = Runner::new(
         w, rng, profile.gen_cfg.clone(), profile.oracles.clone()
     );
+    crate::capture_logs(profile.oracles.c19);
 
     // Start-up.
     let started = guarded(|| runner.world.insts[0].start());
@@ -337,6 +338,33 @@ fn finish(
         );
         report.fired = st.fired.clone();
         report.probes = st.probes.clone();
+        if runner.oracles.c19 {
+            report.probes.insert(
+                "c19.sync_attempts".into(), runner.ext.c19.attempts_seen
+            );
+            report.probes.insert(
+                "c19.sync_failures".into(), runner.ext.c19.failures_seen
+            );
+            report.probes.insert(
+                "c19.views_checked".into(), runner.ext.c19.views_checked
+            );
+        }
+        if runner.oracles.c11 {
+            report.probes.insert(
+                "c11.observations".into(), runner.ext.c11.mem.observations
+            );
+            report.probes.insert(
+                "c11.catch_ups_checked".into(),
+                runner.ext.c11.mem.catch_ups_checked
+            );
+            report.probes.insert(
+                "c11.session_resets".into(), runner.ext.c11.resets
+            );
+            report.probes.insert(
+                "c11.max_deltas_seen".into(),
+                runner.ext.c11.mem.max_deltas_seen as u64
+            );
+        }
         report.kv_mutations = st.kv_mutations;
         report.fs_mutations = st.fs_mutations;
         if std::env::var("VERIF_DUMP_TRACE").is_ok() {
@@ -347,6 +375,7 @@ fn finish(
     for inst in runner.world.insts.iter_mut() {
         inst.stop();
     }
+    crate::capture_logs(false);
     seams::enable(false);
     world::remove_run_dir(base);
     report.wall_ms = t0.elapsed().as_millis() as u64;
